@@ -126,41 +126,64 @@ func sameRecv(a, b ssa.Value) bool {
 // ruleSelectLogsCleanup: the failure-cleanup idiom of the concurrent open.
 func ruleSelectLogsCleanup(r *Run) {
 	p := r.P
-	fn := p.Method(dockerlogPkg, "Querier", "SelectLogs")
-	o := r.Ob("OWN-CLEANUP", "dockerlog.(*Querier).SelectLogs cleanup", "when the concurrent open fails, every reader that was opened is closed: a deferred loop over the whole slot slice, registered before the goroutines start, closes each non-nil slot when the function returns an error")
+	o := r.Ob("OWN-CLEANUP", "dockerlog concurrent open cleanup", "when the concurrent open fails, every reader that was opened is closed: a deferred cleanup over the whole slot slice, registered before the goroutines start, closes each non-nil slot when the function returns an error")
+	// the function that starts the goroutines
+	var fn *ssa.Function
+	var firstGo ssa.CallInstruction
+	for _, gs := range goSites(p) {
+		pk := gs.In.Pkg
+		if pk != nil && pk.Pkg.Path() == modPath+"/"+dockerlogPkg && fn == nil {
+			fn, firstGo = gs.In, gs.Instr
+		}
+	}
 	if fn == nil {
-		o.Fail("-", "method not found")
+		o.Fail("-", "no goroutine start found in package dockerlog")
 		return
 	}
 	errCell := errorResultCell(fn)
-	var firstGo ssa.CallInstruction
-	for _, gs := range goSites(r.P) {
-		if gs.In == fn && firstGo == nil {
-			firstGo = gs.Instr
-		}
-	}
-	if firstGo == nil {
-		o.Fail(r.pos(fn.Pos()), "no goroutine start found")
-		return
-	}
-	// the slot slice cell: captured by the goroutine closure and indexed for writing
 	var def *ssa.Defer
-	var body *ssa.Function
+	var effs []closeEffect
 	var mc *ssa.MakeClosure
 	for _, c := range callsIn(fn) {
 		d, ok := c.(*ssa.Defer)
 		if !ok {
 			continue
 		}
-		if m, ok := d.Call.Value.(*ssa.MakeClosure); ok {
-			b, _ := m.Fn.(*ssa.Function)
-			if b != nil && len(closureCloseEffects(b, func(*ssa.FreeVar) bool { return false })) > 0 {
-				def, body, mc = d, b, m
+		var body *ssa.Function
+		var m *ssa.MakeClosure
+		switch fv := d.Call.Value.(type) {
+		case *ssa.MakeClosure:
+			m = fv
+			body, _ = fv.Fn.(*ssa.Function)
+		case *ssa.Function:
+			body = fv
+		}
+		if body == nil {
+			continue
+		}
+		errRef := func(v ssa.Value) bool {
+			switch x := v.(type) {
+			case *ssa.FreeVar:
+				for i, f := range body.FreeVars {
+					if f == x && m != nil && i < len(m.Bindings) && errCell != nil && m.Bindings[i] == ssa.Value(errCell) {
+						return true
+					}
+				}
+			case *ssa.Parameter:
+				for i, prm := range body.Params {
+					if prm == x && i < len(d.Call.Args) && errCell != nil && d.Call.Args[i] == ssa.Value(errCell) {
+						return true
+					}
+				}
 			}
+			return false
+		}
+		if e := closeEffects(body, errRef, 0); len(e) > 0 {
+			def, effs, mc = d, e, m
 		}
 	}
 	if def == nil {
-		o.Fail(r.pos(fn.Pos()), "no deferred cleanup closure that closes the opened readers")
+		o.Fail(r.pos(fn.Pos()), "no deferred cleanup that closes the opened readers")
 		return
 	}
 	good := true
@@ -168,76 +191,56 @@ func ruleSelectLogsCleanup(r *Run) {
 		good = false
 		o.Fail(r.pos(def.Pos()), "the cleanup is registered after goroutines may already have opened readers")
 	}
-	isErrFV := func(fv *ssa.FreeVar) bool {
-		for i, f := range body.FreeVars {
-			if f == fv && mc.Bindings[i] == ssa.Value(errCell) {
-				return true
-			}
-		}
-		return false
-	}
-	effs := closureCloseEffects(body, isErrFV)
-	loopClose := false
-	for _, e := range effs {
-		if e.Loop && e.FreeVar >= 0 {
-			loopClose = true
-			if !e.OnError {
-				// closing unconditionally would close readers handed to the merged iterator
-				good = false
-				o.Fail(r.pos(def.Pos()), "the cleanup closes the readers even when the function succeeds")
-			}
+	var loopEff *closeEffect
+	for i := range effs {
+		if effs[i].Loop {
+			loopEff = &effs[i]
 		}
 	}
-	if !loopClose {
+	if loopEff == nil {
 		good = false
 		o.Fail(r.pos(def.Pos()), "the cleanup does not close the elements of the slot slice")
-	}
-	// the loop in the closure: whole slice, no early exit, Close on every non-nil element
-	loops := rangeIndexLoops(body)
-	if len(loops) != 1 {
-		good = false
-		o.Fail(r.pos(body.Pos()), "expected one range loop in the cleanup, found %d", len(loops))
 	} else {
-		l := loops[0]
-		if d, ok := isWholeValue(l.X); !ok {
+		if !loopEff.OnError {
 			good = false
-			o.Fail(r.pos(body.Pos()), "the cleanup ranges over a %s of the slots", d)
+			o.Fail(r.pos(def.Pos()), "the cleanup closes the readers even when the function succeeds (they belong to the merged iterator then)")
 		}
-		if ex := l.earlyExits(); len(ex) > 0 {
-			good = false
-			o.Fail(r.pos(termPos(ex[0][0])), "the cleanup loop can be left before every slot was visited (readers opened for later containers leak)")
-		}
-		// the only way to skip Close in an iteration is element == nil
-		var closeCall ssa.CallInstruction
-		for b := range l.Blocks {
-			for _, in := range b.Instrs {
-				if c, ok := in.(ssa.CallInstruction); ok {
-					if _, ok := methodCallNamed(c, "Close"); ok {
-						closeCall = c
-					}
-				}
+		// the closed slice is the slot slice the goroutines fill
+		_ = mc
+		lf := loopEff.LoopFn
+		var l *rangeLoop
+		for _, cand := range rangeIndexLoops(lf) {
+			if cand.Blocks[loopEff.Call.Block()] {
+				l = cand
 			}
 		}
-		if closeCall != nil {
-			// paths from body to header avoiding the close block must all pass a `elem == nil` true edge
+		if l == nil {
+			good = false
+			o.Fail(r.pos(loopEff.Call.Pos()), "the readers are not closed in a loop over the slots")
+		} else {
+			if d, ok := isWholeValue(l.X); !ok {
+				good = false
+				o.Fail(r.pos(l.Len.Pos()), "the cleanup ranges over a %s of the slots", d)
+			}
+			if ex := l.earlyExits(); len(ex) > 0 {
+				good = false
+				o.Fail(r.pos(termPos(ex[0][0])), "the cleanup loop can be left before every slot was visited (readers opened for later containers leak)")
+			}
 			for b := range l.Blocks {
 				ifi, ok := b.Instrs[len(b.Instrs)-1].(*ssa.If)
 				if !ok || b == l.Header {
 					continue
 				}
-				x, nn, ok := nilCheck(ifi.Cond)
+				x, _, ok := nilCheck(ifi.Cond)
 				isElemNil := false
 				if ok {
-					if lu, ok := x.(*ssa.UnOp); ok && lu.Op == token.MUL {
-						if isIndexOf(lu.X, l) {
-							isElemNil = true
-						}
+					if lu, ok := x.(*ssa.UnOp); ok && lu.Op == token.MUL && isIndexOf(lu.X, l) {
+						isElemNil = true
 					}
 				}
-				_ = nn
 				if !isElemNil {
 					good = false
-					o.Fail(r.pos(ifi.Pos()), "a slot may be skipped by a condition other than `slot == nil`")
+					o.Fail(r.pos(termPos(b)), "a slot may be skipped by a condition other than `slot == nil`")
 				}
 			}
 		}
@@ -256,6 +259,6 @@ func ruleSelectLogsCleanup(r *Run) {
 		o.Fail(r.pos(fn.Pos()), "the opened readers are not all handed to the merged iterator")
 	}
 	if good {
-		o.OK("defer (before Go): if rerr != nil, range all slots, close non-nil; success: newMergeIter(iters)").At(r.pos(def.Pos()))
+		o.OK("%s: defer (before Go): if rerr != nil, range all slots, close non-nil; success: newMergeIter(iters)", shortFuncName(fn)).At(r.pos(def.Pos()))
 	}
 }
